@@ -258,9 +258,14 @@ class Body:
                 lhs = st['lhs']
                 if lhs['p']:
                     continue
-                if lhs['l'] in user and not allow_user:
-                    return None
                 rv = st['rv']
+                if lhs['l'] in user and not allow_user:
+                    # a block that sets a user variable is stepped over only when it merely hands a tracked
+                    # value on (`let owned = <the Some(..) just built>`); stores of constants or computed values
+                    # into user variables stay on the path
+                    if not (rv['k'] == 'use' and rv['op']['k'] in ('copy', 'move') and not rv['op']['place']['p']
+                            and rv['op']['place']['l'] in env):
+                        return None
                 if rv['k'] == 'use' and rv['op']['k'] == 'const' and 'val' in rv['op']:
                     env[lhs['l']] = rv['op']['val']
                 elif rv['k'] == 'agg' and rv.get('agg') == 'adt' and rv.get('variant'):
@@ -1059,7 +1064,8 @@ class Facts:
                 self.inlined[b['path']] = jb['inlined']
             inl[b['path']] = jb
         self._inl = inl
-        ds = desugar.Desugarer(inl, is_new)
+        self._adt_paths = dict((a['path'], [v['name'] for v in a['variants']]) for a in self.j['adts'])
+        ds = desugar.Desugarer(inl, is_new, self._adt_paths)
         for b in self.j['bodies']:
             jb = inl[b['path']]
             jd = ds.run(jb)
@@ -1079,7 +1085,7 @@ class Facts:
             import desugar
             jb = self.bodies[path].j
             jd = desugar.Desugarer(self._inl, lambda c, k, j: c.startswith('extern:') or self._inl[c]['kind'] == 'Closure'
-                                   or c in self.unknown_functions).run(jb)
+                                   or c in self.unknown_functions, self._adt_paths).run(jb)
             self._norm[path] = self.bodies[path] if jd is jb else Body(self, desugar.split_switch_operands(jd))
         return self._norm[path]
 
